@@ -35,6 +35,12 @@ CHECKS = {
                      'plus trace monitors (Established only after OPEN+KEEPALIVE both ways, NOTIFICATION => close + Idle, '
                      'ignored events change nothing).',
                 ref='7 C01 + Appendix A', note=E1_NOTE),
+    'C18': dict(level='model_checking', engine='E1',
+                technique='explicit-state BFS + deviation-bounded exploration with a wire-count monitor',
+                text='On every transition of the exploration (C01 alphabet plus short/long frames and REST send events) the '
+                     'counters returned by GET /v1/peer/<ip>/statistic are compared with the messages the reference deframer '
+                     'finds in the transport write log and in the delivered stream; the deltas are part of the canonical key.',
+                ref='7 C18', note=E1_NOTE),
 }
 
 NOT_YET = 'check not built yet in this session (see DESIGN.md section 7 for the plan); not claimed'
